@@ -160,7 +160,22 @@ func main() {
 			}
 			ex.Enter = func(f *ssa.Function) bool { return !keep[f.Name()] && core.RepoFunc(f) }
 		}
-		outs, err := ex.Run(fn, core.DefaultArgs(fn), nil)
+		args := core.DefaultArgs(fn)
+		if n := os.Getenv("VERIF_ARG0LEN"); n != "" {
+			var k int
+			fmt.Sscanf(n, "%d", &k)
+			args[0] = core.AVal{K: core.ASlice, Path: "p0", Lo: 0, Len: k, NonNil: true}
+		}
+		if os.Getenv("VERIF_RECORD") != "" {
+			pre := os.Getenv("VERIF_RECORD")
+			ex.OnCall = func(ev *core.AEvent, _ *core.AMem) (core.AVal, bool) {
+				if strings.HasPrefix(ev.Callee, pre) {
+					return core.OpaqueRet(ev), true
+				}
+				return core.AVal{}, false
+			}
+		}
+		outs, err := ex.Run(fn, args, nil)
 		if err != nil {
 			fmt.Println("error:", err)
 		}
@@ -173,7 +188,11 @@ func main() {
 				fmt.Printf("  %s = %s\n", k, o.Mem.Load(k, nil))
 			}
 			for _, ev := range o.Trace {
-				fmt.Printf("  event %s\n", ev.Callee)
+				var as []string
+				for _, a := range ev.Args {
+					as = append(as, fmt.Sprintf("%s{K=%d path=%q lo=%d len=%d lenname=%q}", core.ArgName(a), a.K, a.Path, a.Lo, a.Len, a.LenName))
+				}
+				fmt.Printf("  event %s(%s)\n", ev.Callee, strings.Join(as, "; "))
 			}
 		}
 		fmt.Println("unsound:", ex.Unsound)
